@@ -318,6 +318,20 @@ def expand_fn(src, qual, opts, sections, tline0, notes, drop_hints=False):
             cnt = text.count(s['old'])
             if s['old'].count('\n') != s['new'].count('\n'):
                 raise GenError('%s %s: subst %s must preserve line count' % (src.rel, qual, s['id']))
+            if cnt == 0 and s['old'].strip():
+                # the construct may merely have been re-indented (wrapped in a new block): match again ignoring the
+                # leading white space of every line
+                rx = re.compile('\n'.join(r'[ \t]*' + re.escape(ln.strip()) if ln.strip() else r'[ \t]*' for ln in s['old'].split('\n')))
+                hits = list(rx.finditer(text))
+                if hits:
+                    for h in reversed(hits):
+                        lead = re.match(r'[ \t]*', s['old']).group(0)
+                        text = text[:h.start()] + s['new'] + text[h.end():]
+                    notes.append({'id': s['id'], 'what': 'rewrite %r => %r (x%d, indentation-insensitive match)' % (s['old'], s['new'], len(hits)),
+                                  'file': src.rel, 'fn': qual})
+                    if len(hits) != s['count']:
+                        notes.append({'id': 'SUBST-COUNT', 'what': 'subst %s: expected %d occurrence(s), found %d' % (s['id'], s['count'], len(hits)), 'file': src.rel, 'fn': qual})
+                    continue
             if cnt != s['count']:
                 # SUBST-COUNT: the construct the normalisation is for occurs a different number of times than when the
                 # template was written (the source changed).  A normalisation replaces a construct by an equivalent one
@@ -420,7 +434,7 @@ def expand_fn(src, qual, opts, sections, tline0, notes, drop_hints=False):
     if drop_hints:
         # the proof hints of this function no longer compile against the changed source (they name a local that is gone):
         # they are proof help, not code -- drop them and let the verifier judge the contract on its own
-        sections = [x for x in sections if x['kind'] in ('spec', 'subst', 'loop')]
+        sections = [x for x in sections if x['kind'] in ('spec', 'subst', 'loop', 'atstart')]
         notes.append({'id': 'HINTS-DROPPED', 'what': 'proof hints of %s dropped (they do not compile against the changed source)' % qual, 'file': src.rel, 'fn': qual})
     for s in sections:
         if s['kind'] == 'spec':
@@ -485,6 +499,10 @@ def expand_fn(src, qual, opts, sections, tline0, notes, drop_hints=False):
                 raise GenError('%s %s: loop %d body not found' % (src.rel, qual, s['n']))
             le = match_close(text, cls, lb)
             ls = text.rfind('\n', 0, le) + 1
+            inserts.append((ls, sec_lines(s), 'line'))
+        elif s['kind'] == 'atstart':
+            # first thing in the function body (used for `reveal` of opaque definitions)
+            ls = text.index('\n', bo) + 1
             inserts.append((ls, sec_lines(s), 'line'))
         elif s['kind'] == 'atend':
             # just before the closing brace of the function body (only meaningful for functions whose last
@@ -733,6 +751,8 @@ def generate(repo, tmpl_path, outdir, probe=None, drop_hints=()):
                         cur = {'kind': 'loopend', 'n': int(rest.split()[0]), 'lines': []}
                     elif head == 'atend':
                         cur = {'kind': 'atend', 'lines': []}
+                    elif head == 'atstart':
+                        cur = {'kind': 'atstart', 'lines': []}
                     elif head == 'subst':
                         m = SUBST_RX.match(body)
                         if not m:
